@@ -533,6 +533,31 @@ pub open spec fn opt_view(o: Option<Vec<u8>>) -> Option<Seq<u8>> { match o { Som
             && refresh_deletes == si_flag(si_vk(entry), si_vk(entry).len() as int, false)), //# C19.syncinfo_id_set_refresh_deletes_defaults_false
 //@end
 
+
+// ---- WhoAmI response (RFC 4532) and StartTxn response (RFC 5805): the value is the authzId / transaction identifier (UTF-8)
+#[verifier::external_type_specification]
+#[verifier::external_body]
+pub struct ExUtf8Error(core::str::Utf8Error);
+pub assume_specification<'a> [core::str::from_utf8] (v: &'a [u8]) -> (r: core::result::Result<&'a str, core::str::Utf8Error>)
+    ensures r is Ok <==> valid_utf8(v@), r matches Ok(s) ==> s@ == utf8_decode(v@);
+pub mod str { pub use core::str::from_utf8; }
+pub struct WhoAmIResp { pub authzid: String }
+pub struct StartTxnResp { pub txn_id: String }
+//@lift name=WhoAmIResp::parse file=src/exop_impl/whoami.rs impl="impl\\s+ExopParser\\s+for\\s+WhoAmIResp\\s*\\{" fn=parse
+//@ sub "fn parse(val: &[u8]) -> WhoAmIResp" => "fn whoami_resp_parse(val: &[u8]) -> WhoAmIResp"
+//@ ret r
+//@ spec
+    requires valid_utf8(val@), //# C19.whoami_response_must_be_utf8_else_panics_by_contract
+    ensures r.authzid@ == utf8_decode(val@), //# C19.whoami_response_authzid_as_sent
+//@end
+//@lift name=StartTxnResp::parse file=src/exop_impl/txn.rs impl="impl\\s+ExopParser\\s+for\\s+StartTxnResp\\s*\\{" fn=parse
+//@ sub "fn parse(val: &[u8]) -> StartTxnResp" => "fn start_txn_resp_parse(val: &[u8]) -> StartTxnResp"
+//@ ret r
+//@ spec
+    requires valid_utf8(val@),
+    ensures r.txn_id@ == utf8_decode(val@), //# C19.start_txn_response_identifier_as_sent
+//@end
+
 // ---- PasswordModify response (RFC 3062): SEQUENCE { genPasswd [0] OCTET STRING OPTIONAL }
 pub struct PasswordModifyResp { pub gen_pass: String }
 pub assume_specification<T: Clone> [<[T] as std::borrow::ToOwned>::to_owned] (s: &[T]) -> (v: Vec<T>) ensures v@ == s@;
